@@ -128,7 +128,7 @@ func pickStep(r *rand.Rand) Param {
 	case 4:
 		return num(int64(1 + r.Intn(999))) // 0.001 .. 0.999 s
 	case 5:
-		return num(1000 * 1000000000) // huge
+		return num(1000 * []int64{1000000000, 1000000, 900000}[r.Intn(3)]) // huge: 1e9 s, 1e6 s, 9e5 s
 	default:
 		return num(1000 * []int64{1, 5, 15, 30, 60, 300, 3600}[r.Intn(7)])
 	}
@@ -160,6 +160,9 @@ func pickRange(r *rand.Rand) (Param, Param) {
 		return s, s
 	case 9:
 		return s, num(4000000000)
+	case 10:
+		// more than 292 years: end - start does not fit int64 nanoseconds (it wrapped around in FixPeriodPlanner: fix 7e7939d)
+		return num(-5000000000), num([]int64{5000000000, 4300000000, 4223372036}[r.Intn(3)])
 	}
 	return s, e
 }
@@ -278,6 +281,12 @@ func lokiCase1(r *rand.Rand, id int) *Case {
 	}
 	mc.Start, mc.End = pickRange(r)
 	mc.Step = pickStep(r)
+	wraps := mc.Start.K == "num" && mc.Start.V == -5000000000
+	if wraps && r.Intn(3) > 0 {
+		// few points by the (saturating) cap, yet end - start wraps around in int64
+		mc.Step = num(1000 * []int64{1000000000, 1000000, 900000}[r.Intn(3)])
+		mc.DurS = 3600
+	}
 	mc.Limit = pickLimit(r)
 	if mc.Ep == "loki_instant" {
 		// the instant endpoint takes `time` (integer ns; 0 or absent = now): modelled through End, kept explicit and positive
@@ -318,6 +327,9 @@ func lokiCase1(r *rand.Rand, id int) *Case {
 	}
 	if mc.Outside {
 		c.Class += "+rows-outside-window"
+	}
+	if wraps && mc.Ep == "loki_range" {
+		c.Class += "+window-wraps-int64"
 	}
 	if mc.Ep == "loki_range" {
 		c.Path = "/loki/api/v1/query_range"
@@ -833,6 +845,18 @@ func tcpResetCase(r *rand.Rand, id int) *Case {
 		c.Path = "/loki/api/v1/tail"
 		c.Params = []KV{{"query", []string{`{a="b"}`, `{a="b"} | json`, `{a="b"} |= "x"`}[r.Intn(3)]}}
 		c.Script = []ResultSet{{Match: "", Cols: 4, FailAfter: -1, Rows: [][]Cell{{{U: u64(1)}, {M: map[string]string{"a": "b"}}, {S: str(`{"x":"1"}`)}, {I: i64(time.Now().UnixNano())}}}}}
+		switch r.Intn(3) {
+		case 1:
+			// the statement of the first tick fails: the tail goroutine ends, the handler must end the session (not spin)
+			c.Class = "test/ws_tail_db_error"
+			c.Script[0].QueryErr = true
+			k = 3000
+		case 2:
+			// a cell that cannot be scanned: an error entry, sent to the client, then the tail goroutine ends
+			c.Class = "test/ws_tail_bad_cell"
+			c.Script[0].Rows = [][]Cell{{{U: u64(1)}, {M: map[string]string{"a": "b"}}, {I: i64(5)}, {S: str("x")}}}
+			k = 3000
+		}
 	case 0:
 		c.Class = "test/tcp_reset/loki_range_log"
 		c.Path = "/loki/api/v1/query_range"
